@@ -200,6 +200,70 @@ def check_nickname(prior, written):
     return out
 
 
+# -- two objects, two boards, used in turn ------------------------------------------------
+# Everything the statement talks about is state of *one* board seen through *one* object: a
+# value, a name or a resolution remembered anywhere else (class attribute, module cache keyed
+# by the request text) answers for the wrong board as soon as two are connected.
+PAIR_OPS = [("w32", RAM_A, 4), ("w32", RAM_B, 4), ("w32", RAM_B, 6), ("nick", "Ann"),
+            ("nick", "Bob"), ("mot", 1, 1), ("mot", 3, 0), ("mot", 0, 5)]
+
+
+def check_side_by_side(steps):
+    """steps: ((which, op), ...) with which in (0, 1).  After the steps every board must hold
+    exactly what was sent through its own object, and each object must read back its own."""
+    pair = []
+    for who in ("Ann0", "Bob0"):
+        board = EBB3Board(future=True, nickname=who)
+        obj, port, board = new_object(board=board)
+        pair.append({"obj": obj, "port": port, "board": board, "ram": [0] * 32, "nick": who,
+                     "motors": board.motor_state()})
+    desc = " ; ".join(f"{'ab'[w]}.{op[0]}{tuple(op[1:])}" for w, op in steps)
+    out = []
+    for which, op in steps:
+        side = pair[which]
+        if op[0] == "w32":
+            ret, exc = call(side["obj"], "var_write_int32", (op[1], op[2]))
+            side["ram"][op[2]:op[2] + 4] = list(op[1].to_bytes(4, "big", signed=True))
+        elif op[0] == "nick":
+            ret, exc = call(side["obj"], "write_nickname", (op[1],))
+            side["nick"] = op[1]
+        else:
+            ret, exc = call(side["obj"], "motors_enable", (op[1], op[2]))
+            side["motors"] = expected_motor_state(side["motors"], op[1], op[2])
+        if exc is not None or side["obj"].err is not None:
+            return [("pair_err", f"{desc}: {op} on object {'ab'[which]} -> {ret!r} exc={exc!r} "
+                     f"err={side['obj'].err!r}")]
+    for label, side in zip("ab", pair):
+        board, obj = side["board"], side["obj"]
+        state = board.motor_state()
+        want = side["motors"]
+        if board.ram != side["ram"] or board.nickname != side["nick"] or \
+                state[:2] != want[:2] or ((want[0] or want[1]) and state[2] != want[2]):
+            out.append(("pair_board", f"{desc}: board {label} holds RAM[4..9]={board.ram[4:10]} "
+                        f"nickname={board.nickname!r} motors={state}; what was sent through "
+                        f"object {label} amounts to {side['ram'][4:10]} {side['nick']!r} {want}"))
+            continue
+        for slot in (4, 6):
+            want_val = int.from_bytes(bytes(board.ram[slot:slot + 4]), "big", signed=True)
+            got, exc = call(obj, "var_read_int32", (slot,))
+            if exc is not None or got != want_val:
+                out.append(("pair_read", f"{desc}: {label}.var_read_int32({slot}) = {got!r} "
+                            f"({exc!r}), board {label} holds {want_val}"))
+        obj.name = "stale"
+        _ret, exc = call(obj, "query_nickname", ())
+        if exc is not None or obj.name != board.nickname:
+            out.append(("pair_read", f"{desc}: {label}.query_nickname() -> name {obj.name!r} "
+                        f"({exc!r}), board {label} is called {board.nickname!r}"))
+        report, exc = call(obj, "motors_query_enabled", ())
+        want_report = (state[2] if state[0] else 0, state[2] if state[1] else 0)
+        if exc is not None or report != want_report:
+            out.append(("pair_read", f"{desc}: {label}.motors_query_enabled() = {report!r} "
+                        f"({exc!r}), board {label} is in state {state}"))
+        if obj.err is not None or side["port"].queue or side["port"].misattributed():
+            out.append(("pair_err", f"{desc}: object {label} err={obj.err!r} / misaligned"))
+    return out
+
+
 def _job(job):
     kind, items = job
     part = core.Part()
@@ -219,12 +283,16 @@ def _job(job):
         elif kind == "motors":
             bad = check_motors(*item)
             part.count("nontrivial")
+        elif kind == "pair":
+            bad = check_side_by_side(item)
+            part.count("nontrivial")
+            part.count("pair_histories")
         else:
             bad = check_nickname(*item)
             part.count("nontrivial")
         part.count("histories")
         part.count("transitions", {"int32": 2, "overlap": 4, "nick": 2}.get(kind, 0) or
-                   (len(item) + 6 if kind == "ramhist" else 2 * len(item[1])))
+                   (len(item) + 6 if kind in ("ramhist", "pair") else 2 * len(item[1])))
         for clause, msg in bad:
             part.violation(f"{clause}:{kind}:{item!r}", msg, {"kind": kind, "item": _js(item)})
         part.add("states", core.digest((kind, repr(item))))
@@ -264,6 +332,10 @@ def run(ctx):
                         for a in chain for b in chain for c in chain for d in chain
                         for e in (0, 2) for f in (0, 4)]
     jobs += [("motors", chunk) for chunk in core.split(motor_items, 32)]
+    pair_alphabet = [(which, op) for which in (0, 1) for op in PAIR_OPS]
+    pair_items = [tuple(h) for h in itertools.product(pair_alphabet, repeat=ctx.pick(3, 4))
+                  if len({w for w, _o in h}) == 2]
+    jobs += [("pair", chunk) for chunk in core.split(pair_items, 32)]
     nick_items = [(p, w) for p in NICKS for w in NICKS]
     jobs.append(("nick", nick_items))
     part = core.fan_out(ctx, _job, jobs)
@@ -280,11 +352,15 @@ def run(ctx):
                 "values at four overlapping slots, single bytes at seven slots) checked against a "
                 "model RAM after every step; motors: all 20 board motor states (installed directly and reached via "
                 "library calls) x (r1,r2) in -1..7 squared, then depth-2/3 chains; nicknames: "
-                "20 x 20 prior/written (incl. names starting with the reply header characters); non-trivial = negative or >= 2^24 values, overlapping "
+                "20 x 20 prior/written (incl. names starting with the reply header characters); two "
+                "objects on two boards used in turn: all histories of 3 (thorough 4) steps over "
+                "2 x 8 operations that touch both, each board and each object's read-back "
+                "compared with what went through that object; non-trivial = negative or >= 2^24 values, overlapping "
                 "slots, every motor and nickname history",
         "samples": core.rotate(part.samples, ctx.seed, 4),
         "int32_values": len(values),
         "ram_histories": cnt.get("ram_histories", 0),
+        "side_by_side_histories": cnt.get("pair_histories", 0),
         "motor_histories": len(motor_items),
         "exhaustive": True,
     }
@@ -307,6 +383,8 @@ def replay(case):
         bad = check_ram_history([tuple(op) for op in item])
     elif kind == "motors":
         bad = check_motors(tuple(item[0]), [tuple(r) for r in item[1]], item[2])
+    elif kind == "pair":
+        bad = check_side_by_side([(w, tuple(op)) for w, op in item])
     else:
         bad = check_nickname(*item)
     return [m for _c, m in bad]
